@@ -121,7 +121,7 @@ def run(module, cfg_text, wd, name=None, dump=False, simulate=None, depth=None, 
     if m2 and not res.violation:
         res.violation = m2.group(1) if m2.groups() else 'temporal'
     # coverage: "<Name line .. of module M>: distinct:generated"
-    for cm in re.finditer(r'^<(\w+) line \d+, col \d+ to line \d+, col \d+ of module (\w+)>: (\d+):(\d+)', out, re.M):
+    for cm in re.finditer(r'^<(\w+) line \d+, col \d+ to line \d+, col \d+ of module (\w+)(?: \([\d ]+\))?>: (\d+):(\d+)', out, re.M):
         k = cm.group(1)
         a, b = res.coverage.get(k, (0, 0))
         res.coverage[k] = (a + int(cm.group(3)), b + int(cm.group(4)))
